@@ -210,7 +210,29 @@ func seedEBP(r *gen.Rand) []byte {
 		e.Groups = append(e.Groups, r.Byte()&0x7f)
 	}
 	e.Reserved = r.Bytes(r.Intn(5))
-	return e.Bytes()
+	b := e.Bytes()
+	if r.Chance(6) {
+		// a long input: a grouping chain that runs on (extension bits set) for up to ~270 bytes, then the rest
+		n := 200 + r.Intn(80)
+		chain := make([]byte, n)
+		for i := range chain {
+			chain[i] = 0x80 | r.Byte()
+		}
+		hdr := []byte{0xDF, byte(r.PickInt([]int{255, 254, 200, 20})), 'E', 'B', 'P', '0', 0x10 | r.Byte()&0xef | 0x08}
+		if r.Bool() {
+			hdr = []byte{0xA9, 0xff, 0x18 | r.Byte()}
+		}
+		b = append(append(hdr, chain...), r.Bytes(r.Intn(30))...)
+		if r.Bool() {
+			b[len(hdr)+r.Intn(n)] &= 0x7f // the chain ends somewhere
+		}
+		for k := 244; k < 256 && k < len(b); k++ {
+			if r.Chance(4) {
+				b[k] &= 0x7f // ... often around the point where an 8-bit index wraps
+			}
+		}
+	}
+	return b
 }
 
 func seedPacket(r *gen.Rand) []byte {
@@ -583,6 +605,25 @@ func driveStream(b []byte, pid int) {
 		acc.Bytes()
 		acc.Packets()
 	})
+	call("packet.Accumulator(after a refused packet)", b, true, func() {
+		// keep using an accumulator after a packet it reported as an error
+		acc := packet.NewAccumulator(func([]byte) (bool, error) { return false, nil })
+		for i := 0; i+188 <= len(b) && i < 188*12; i += 188 {
+			var pk packet.Packet
+			copy(pk[:], b[i:])
+			pk[1] |= 0x40
+			acc.WritePacket(&pk)
+			bad := pk
+			bad[3] = bad[3]&^0x30 | 0x20 // no payload flag
+			acc.WritePacket(&bad)
+			bad[3] |= 0x30
+			bad[4] = 0xff // adaptation_field_length beyond the packet
+			acc.WritePacket(&bad)
+			acc.Bytes()
+			acc.Packets()
+		}
+		acc.Reset()
+	})
 	call("packet.IOWriter.Write", b, true, func() { packet.IOWriter(&sinkW{}).Write(b) })
 	call("packet.IOWriter.ReadFrom", b, true, func() {
 		packet.IOWriter(&sinkW{}).(io.ReaderFrom).ReadFrom(bufio.NewReaderSize(bytes.NewReader(b), 16+len(b)%500))
@@ -622,11 +663,17 @@ func driveCLI(c *mon.Ctx, i int, b []byte) {
 	cmd.Start()
 	go func() { done <- cmd.Wait() }()
 	var err error
-	select {
-	case err = <-done:
-	case <-time.After(120 * time.Second):
-		cmd.Process.Kill()
-		<-done
+	timedOut := false
+	c.ExternalWait(func() {
+		select {
+		case err = <-done:
+		case <-time.After(120 * time.Second):
+			cmd.Process.Kill()
+			<-done
+			timedOut = true
+		}
+	})
+	if timedOut {
 		c.Count("cli.wall_clock_watchdog") // inconclusive on its own; the in-process entry points decide hangs
 		return
 	}
